@@ -758,6 +758,7 @@ func (t *Teamserver) SendEvent(id string, pk packager.Package) error {
 		if err != nil {
 			// TODO: comment this line out as it seems to crash the server
 			//t.Clients[id].Mutex.Unlock()
+			client.Mutex.Unlock()
 			return err
 		}
 
